@@ -144,7 +144,6 @@ def tryLoadUnregistered (w : World) (s : St) (fpath : Str) : Except Err (St × B
   match loadOne w fpath none with
   | .ok es => .ok ((s.sync [(fpath, es)]), true)
   | .error .syntax => .ok (s, false)
-  | .error .compress => .ok (s, false)
   | .error e => .error e
 
 def scanDir (w : World) (ed : EntryDict) (ss : ScanSt) (sysPath rel : Str) (dev ino : Nat) (kids : List (Str × Node)) :
